@@ -31,11 +31,12 @@ func NewLens[S, A any](t hseq.Type[S]) Lens[S, A] {
 	ft := t.Type
 	fv := reflect.TypeOf(new(A)).Elem()
 
-	if ft == fv {
+	cat := reflect.TypeOf(new(S)).Elem()
+
+	if cat.Kind() == reflect.Struct && ft == fv {
 		return &lens[S, A]{t}
 	}
 
-	cat := reflect.TypeOf(new(S)).Elem()
 	panic(fmt.Errorf("invalid type: Lens[%s, %s] not compatible with %s", cat.Name(), ft.Name(), fv.Name()))
 }
 
